@@ -227,9 +227,16 @@ def uniform_dequantize(
       tensor_data, quantization_params
   )
   _is_valid_quantization_params(tensor_data, quantization_params)
-  return np.multiply(
-      tensor_data - quantization_params.zero_point, quantization_params.scale
+  # Subtract in at least 32 bits: narrow integer types (e.g., int8 data with
+  # int8 zero points) would otherwise wrap around.
+  shifted_data = np.subtract(
+      tensor_data,
+      quantization_params.zero_point,
+      dtype=np.result_type(
+          tensor_data, quantization_params.zero_point, np.int32
+      ),
   )
+  return np.multiply(shifted_data, quantization_params.scale)
 
 
 def symmetric_quantize_bias_tensor(
